@@ -305,7 +305,10 @@ def compare_call_execute(base):
                     le = o.fields.get("last_exception") if isinstance(o, Obj) else None
                     sr_ = o.fields.get("stop_reason") if isinstance(o, Obj) else None
                     aborted = isinstance(sr_, EnumVal) and it.enum_concrete_name(sr_) == "ABORTED"
-                    ok = isinstance(o, Obj) and o.fields.get("ok") is False and (aborted or (le is not None and same_tr(tr(le), tr(e))))
+                    if isinstance(o, Obj) and o.fields.get("ok") is False:
+                        ok = True if aborted else (eq_formula(tr(le), tr(e.ident)) if le is not None else False)
+                    else:
+                        ok = False
                     why = "raises the operation's e <-> not ok and last_exception is e (or ABORTED for an AbortRetryError)"
                 else:
                     ok = cb[1] is e or same_tr(tr(cb[1].ident), tr(e.ident))
@@ -645,3 +648,122 @@ for _t in TASKS:
         _t.time_limit = 3000
     _t.assumptions = ["C12 twins: cancellation injected at an await and awaitable-returning callbacks are async-only behaviours and are switched off in the "
                       "comparison ('call a maybe-awaitable and await it' is one interaction); agreement when observability hooks raise is C15's subject"]
+
+
+# ---------------------------------------------------------------------------------------------
+#  3b. Policy.call == Policy.execute up to delivery (breaker interactions), scenario-coupled retry component
+# ---------------------------------------------------------------------------------------------
+SCENARIOS = ["value", "library-abort", "exhausted-result-failure", "operation-exception-final-failure", "propagating-exception",
+             "callback-error"]
+
+
+def policy_ce_harness(flavour, kind):
+    """Policy.<kind> with a retry component whose behaviour is a function of a shared scenario: the retry component's call() and
+    execute() are related by the delivery relation proved on the runners (C04/C11/C12 call~execute)."""
+    key = pol.ENTRY[(flavour, kind)]
+    is_async = flavour == "async"
+    rk = pol.RETRY_KEYS[flavour]
+
+    def h(it):
+        p = it.path
+        w = pol.PW(it, flavour, True, True)
+        w.twin = True
+        sc = SCENARIOS[p.choose(len(SCENARIOS), "scenario")]
+        ec, sr = w.ec, w.sr
+        v = fref("value")
+        L = fopt("final_class", it.fresh_enum(ec, "final_class"))
+        K = it.fresh_enum(ec, "classified")
+        reason = it.fresh_enum(sr, "stop_reason")
+        p.assume(reason.t != it.enum_const(sr, "ABORTED"))
+        e = pol.any_exc(it, "scenario")
+        lat = it.lattice
+        ARE = it.tree.cls("redress.errors:AbortRetryError")
+        REE = it.tree.cls("redress.errors:RetryExhaustedError")
+        is_exc = lat.isinstance_cond(e.cls_t, Exception)
+        if sc == "operation-exception-final-failure":
+            e.tag = "func"
+            p.assume(z3.And(is_exc, z3.Not(lat.isinstance_cond(e.cls_t, ARE)), z3.Not(lat.isinstance_cond(e.cls_t, REE))))
+        elif sc == "propagating-exception":
+            e.tag = "func"
+            p.assume(z3.Or(z3.Not(is_exc), lat.isinstance_cond(e.cls_t, REE)))
+        elif sc == "callback-error":
+            e.tag = "callback"
+            p.assume(z3.And(is_exc, z3.Not(lat.isinstance_cond(e.cls_t, ARE)), z3.Not(lat.isinstance_cond(e.cls_t, REE))))
+        w.final = (sc, None)
+
+        def retry_call(it_, fv, args, kwargs, node):
+            w.retry_calls += 1
+            if sc == "value":
+                return ("coro_done", v) if is_async else v
+            if sc == "library-abort":
+                x = Obj(ARE, {"args": (), "__traceback__": None, "__cause__": None}, cls_t=lat.const["AbortRetryError"], ident=z3.Int("abort_exc"))
+                x.tag = "library-abort"
+                raise PyRaise(x)
+            if sc == "exhausted-result-failure":
+                x = Obj(REE, {"stop_reason": reason, "attempts": fint("attempts"), "last_class": L, "last_exception": None, "last_result": fref("r"),
+                              "next_sleep_s": None, "args": (), "__traceback__": None, "__cause__": None}, cls_t=lat.const["RetryExhaustedError"],
+                        frozen=True, ident=z3.Int("ree_exc"))
+                x.tag = "library-exhausted"
+                raise PyRaise(x)
+            raise PyRaise(e)
+
+        def retry_execute(it_, fv, args, kwargs, node):
+            w.retry_calls += 1
+            if sc in ("propagating-exception", "callback-error"):
+                raise PyRaise(e)
+            ro = it_.tree.cls("redress.policy.types:RetryOutcome")
+            f = {"ok": sc == "value", "value": v if sc == "value" else None, "stop_reason": None, "attempts": fint("attempts"), "last_class": None,
+                 "last_exception": None, "last_result": None, "cause": None, "elapsed_s": freal("elapsed"), "next_sleep_s": None, "timeline": None}
+            if sc == "library-abort":
+                f["stop_reason"] = it_.enum_member(sr, "ABORTED")
+            elif sc == "exhausted-result-failure":
+                f.update(stop_reason=reason, last_class=L, last_result=fref("r"), cause="result")
+            elif sc == "operation-exception-final-failure":
+                f.update(stop_reason=reason, last_class=K, last_exception=e, cause="exception")
+            o = Obj(ro, f, frozen=True, ident=z3.Int("outcome_id"))
+            return ("coro_done", o) if is_async else o
+
+        it.contracts[rk[1]] = retry_call
+        it.contracts[rk[2]] = retry_execute
+        # the classifier is a function of the exception object: asked again about e it answers what it answered the runner
+        it.env_models["classifier"] = lambda it_, fn, a, k, n: K
+        kwargs = dict(w.kwargs)
+        if kind == "execute":
+            kwargs["capture_timeline"] = fopt("capture_timeline", fbool("capture_timeline"))
+        r = call_catch(it, BoundV(w.policy, FuncV(it.tree.func(key))), [w.func], kwargs)
+        it.path.trace.extend(("breaker." + k, (tr(c),)) for k, c in w.records)
+        return {"scenario": sc, "admitted": w.admitted, "records": [(k, tr(c)) for k, c in w.records], "exit": r[0]}
+
+    return h
+
+
+def compare_policy_ce(base):
+    def compare(it, a, b, p):
+        oa, ob = a["out"], b["out"]
+        if oa is None or ob is None:
+            return
+        sc = oa["scenario"]
+        p.oblige(f"{base}/same-admission", oa["admitted"] == ob["admitted"], prop=P)
+        ra, rb = oa["records"], ob["records"]
+        same = len(ra) == len(rb) and all(x[0] == y[0] for x, y in zip(ra, rb))
+        cls_eq = z3.And([eq_formula(x[1], y[1]) for x, y in zip(ra, rb)]) if same and ra else z3.BoolVal(True)
+        p.oblige(f"{base}/same-breaker-interactions/{sc}", z3.And(z3.BoolVal(same), cls_eq) if same else False, prop=P,
+                 detail={"call": str(ra)[:160], "execute": str(rb)[:160]})
+        p.cover(f"{base}/{sc}")
+
+    return compare
+
+
+def t_policy_call_vs_execute(it, flavour):
+    pol.install(it)
+    return ("product", policy_ce_harness(flavour, "call"), policy_ce_harness(flavour, "execute"),
+            compare_policy_ce(f"C12/call~execute/{'Async' if flavour == 'async' else ''}Policy"))
+
+
+TASKS += [
+    _pair_task("call~execute.policy.sync", lambda it: t_policy_call_vs_execute(it, "sync"), 3),
+    _pair_task("call~execute.policy.async", lambda it: t_policy_call_vs_execute(it, "async"), 3),
+]
+for _t in TASKS[-2:]:
+    _t.assumptions = ["Policy call~execute: the retry component's call() and execute() are coupled by the delivery relation proved on the runners; "
+                      "the classifier is a function of the exception object"]
